@@ -267,7 +267,7 @@ pub fn damage(data: &[u8]) {
         let rec_sel = u.arbitrary().unwrap_or(0);
         let pos_frac = u.arbitrary().unwrap_or(0);
         let mask: u32 = u.arbitrary().unwrap_or(1);
-        let mode = u.int_in_range(0u8..=2).unwrap_or(0);
+        let mode = u.int_in_range(0u8..=3).unwrap_or(0);
         let lazy = u.ratio(1, 3).unwrap_or(false);
         let mut ops = vec![];
         while !u.is_empty() && ops.len() < 14 {
